@@ -235,8 +235,12 @@ func c17scenario(kind, dir string, bound int, peerSlow bool, silent ...bool) *ex
 // c17concurrent: TWO threads use the same wrapped connection at the same time (the wrappers serialise
 // them); the context of one is cancelled, the other's stays live.  The live operation must never fail
 // with a context or timeout error, and every byte is accounted for.
-func c17concurrent(kind, dir string, bound int) *explore.Scenario {
+func c17concurrent(kind, dir string, bound int, background ...bool) *explore.Scenario {
 	name := fmt.Sprintf("%s two concurrent %ss, one cancelled", kind, dir)
+	liveBackground := len(background) > 0 && background[0]
+	if liveBackground {
+		name += ", the live one with context.Background()"
+	}
 	packet := kind == "netctx.PacketConn"
 	sc := &explore.Scenario{Name: name, Bound: bound}
 	sc.Cfg.Horizon = 10 * time.Second
@@ -258,7 +262,11 @@ func c17concurrent(kind, dir string, bound int) *explore.Scenario {
 			a, b = newFakePair(packet, capa)
 			w := wrapCtx(kind, a)
 			ctx1, cancel1 := zzvsched.WithCancel()
-			ctx2, _ := zzvsched.WithCancel()
+			var ctx2 context.Context
+			ctx2, _ = zzvsched.WithCancel()
+			if liveBackground {
+				ctx2 = context.Background() // never cancellable: Done() is a nil channel
+			}
 			if dir == "read" {
 				zzvsched.GoNamed("opA", func() {
 					buf := make([]byte, 8)
@@ -609,7 +617,7 @@ func init() {
 					if tier == "thorough" {
 						cb = 3
 					}
-					out = append(out, c17concurrent(k, d, cb))
+					out = append(out, c17concurrent(k, d, cb), c17concurrent(k, d, cb, true))
 					if d == "read" {
 						out = append(out, c17bothDirections(k, cb))
 					}
@@ -618,6 +626,6 @@ func init() {
 			}
 			return out
 		},
-		Rule:        "for netctx.Conn, netctx.PacketConn and connctx over a scheduler-visible pipe (4-byte stream buffer with partial writes / 1-datagram queue): one context-controlled read or write whose context is cancelled by a separate thread at every possible point (before, during, after), a peer thread, then a probe operation with a live context; also two threads operating on the same wrapped connection concurrently, one context cancelled and one live; a read and a write on the same wrapped connection concurrently with both contexts cancelled by separate threads; an operation in flight whose context is cancelled while the connection is closed (through the wrapper or by the peer), followed by a probe on the closed connection; every interleaving within the deviation bound (thorough: unbounded, the whole interleaving space is closed by the state cache)",
+		Rule:        "for netctx.Conn, netctx.PacketConn and connctx over a scheduler-visible pipe (4-byte stream buffer with partial writes / 1-datagram queue): one context-controlled read or write whose context is cancelled by a separate thread at every possible point (before, during, after), a peer thread, then a probe operation with a live context; also two threads operating on the same wrapped connection concurrently, one context cancelled and one live (a cancellable context, or context.Background()); a read and a write on the same wrapped connection concurrently with both contexts cancelled by separate threads; an operation in flight whose context is cancelled while the connection is closed (through the wrapper or by the peer), followed by a probe on the closed connection; every interleaving within the deviation bound (thorough: unbounded, the whole interleaving space is closed by the state cache)",
 		Assumptions: []string{"the wrapped connection is the harness's fake with exact deadline semantics (a passed deadline fails the blocked and every later operation until reset)"}})
 }
